@@ -319,7 +319,7 @@ func (c *c09) Run(ctx *RunCtx) *RunResult {
 	}
 	d := &c09desc{Program: trunc(src, 300), Mutated: mutated, Delivery: delivery, Faults: faults, Text: trunc(string(text), 200)}
 	res.Desc = d
-	simrt.Reset(1, nil, uint64(t.Draw(1<<16))+1)
+	simrt.Reset(1, soloPlan(t, treeSpawnsCached(c.env), 5000), uint64(t.Draw(1<<16))+1)
 	simrt.Solo()
 	rand.Seed(int64(t.Draw(1 << 16)))
 	budget := growth*(200*c.steps[pi]) + 100000
